@@ -45,6 +45,17 @@ func VP_C15_amo_equiv() {
 			}
 			cnf = append(cnf, c)
 		}
+		if zzvp.Param("dup", 0) == 1 {
+			// optionally repeat one of the clauses (same literals), right after the original or at the end
+			if d := zzvp.Choose("dup", len(cnf)+1); d > 0 {
+				c := vpCopy(cnf[d-1])
+				if zzvp.Choose("dup-at-end", 2) == 1 {
+					cnf = append(cnf, c)
+				} else {
+					cnf = append(cnf[:d], append([][]int{c}, cnf[d:]...)...)
+				}
+			}
+		}
 	} else {
 		n = zzvp.Param("n", 3)
 		cnf, _ = vpSymCNF(n, zzvp.Param("m", 3), zzvp.Param("k", 2))
